@@ -52,6 +52,14 @@ FINISH = dict(level="proof",
 
 ENV = {"OPENBLAS_NUM_THREADS": "1", "OMP_NUM_THREADS": "1"}
 HARNESS_A_OPS = ("meanvar", "unitvar", "unitint", "linreg", "whiten", "zca")
+# families of ops whose steps share objects in a history `op ; op ; ...` (same harness executable, same Session members)
+FAMILIES = {"stat": ["meanvar"], "norm": ["unitvar", "unitvar", "unitint"], "lin": ["linreg", "linreg", "whiten", "zca"],
+            "pca": ["pca"], "lda": ["lda", "wlda"], "fisher": ["fisher"]}
+SEP = " ; "
+
+
+def split_steps(line):
+    return [x.strip() for x in line.split(";") if x.strip()]
 
 
 # --------------------------------------------------------------------------- generators
@@ -121,7 +129,8 @@ def table(n, d, part, rows):
     return f"{n} {d} {len(part)} " + " ".join(map(str, part)) + " " + " ".join(str(v) for row in rows for v in row)
 
 
-def gen_case(r, ctx, op, part=None, n=None):
+def gen_case(r, ctx, op, part=None, n=None, hist=False):
+    """one op line; hist: the op is a step of a history (shape classes that make re-used objects change size are favoured)"""
     if op in ("meanvar", "unitvar", "unitint"):
         n, d, rows = gen_matrix(r, ctx, n=n)
         if op != "meanvar" and n == 1 and r.chance(3, 4): n, d, rows = gen_matrix(r, ctx, n=r.range(2, 8))
@@ -152,7 +161,12 @@ def gen_case(r, ctx, op, part=None, n=None):
     if op == "pca":
         n, d, rows = gen_matrix(r, ctx, n=n)
         if n == 1 and r.chance(5, 6): n, d, rows = gen_matrix(r, ctx, n=r.range(2, 9))
-        alg = r.choice([0, 0, 1, 2])
+        if hist and d <= n and r.chance(1, 3):                  # more features than points
+            n, d, rows = gen_matrix(r, ctx, n=n, d=n + r.range(1, 3))
+        # entry point: setData + encoder/decoder, train(model), or the constructor PCA(data, whitening) (algorithm AUTO only)
+        name = r.choice(["pca", "pca", "pca", "pcat", "pcat", "pcac"])
+        ctx.hist("pca_entry", name)
+        alg = 0 if name == "pcac" else r.choice([0, 0, 1, 2])
         small = alg == 2 or (alg == 0 and d > n)
         avail = n if small else d
         m = r.choice([0, 0, 1, avail, r.range(1, max(1, avail))])
@@ -160,7 +174,7 @@ def gen_case(r, ctx, op, part=None, n=None):
         wh = 1 if r.chance(1, 4) else 0
         ctx.hist("pca_branch", "small-sample" if small else "standard")
         part = part or gen_partition(r, n)
-        return f"pca {wh} {alg} {m} " + table(n, d, part, rows)
+        return f"{name} {wh} {alg} {m} " + table(n, d, part, rows)
     if op in ("lda", "wlda"):
         classes = r.choice([2, 2, 3, 4])
         n, d, rows = gen_matrix(r, ctx, n=n or r.choice([classes, classes + 1, classes + 2, 6, 8, 9, 12, 16]), allow_wide=r.chance(1, 8))
@@ -198,18 +212,87 @@ def gen_all_partitions(r, ctx, op):
     return [build_op(head, d, p, rows) for p in comps]
 
 
+def retable(new, old):
+    """the op `new` (configuration) on the dataset of the op `old`, if the columns are compatible; else `new`"""
+    try:
+        hn, nn, dn, en, sn, rn = parse_op(new)
+        ho, no, do, eo, so, ro = parse_op(old)
+    except Exception:
+        return new
+    rows = [list(x) for x in ro]
+    if hn[0] == "linreg" and ho[0] == "linreg":
+        hn = hn[:3] + [ho[3]]
+    elif hn[0] == "lda" and ho[0] == "wlda":
+        rows = [x[:do + 1] for x in rows]
+    elif hn[0] == "wlda" and ho[0] == "lda":
+        rows = [x + [1 + (i * 7) % 3] for i, x in enumerate(rows)]
+    elif en != eo:
+        return new
+    if hn[0] in ("pca", "pcat", "pcac"):
+        alg, m = int(hn[2]), int(hn[3])
+        avail = no if (alg == 2 or (alg == 0 and do > no)) else do
+        hn = hn[:3] + [str(min(m, avail))]
+    if hn[0] == "fisher":
+        hn = hn[:2] + [str(min(int(hn[2]), do))]
+    return build_op(hn, do, so, rows)
+
+
+def gen_history(r, ctx, fam):
+    """2-4 ops of one family executed on the same trainer / model objects: new data of another shape, the same data
+    under another configuration, or an identical repetition"""
+    k = r.choice([2, 2, 2, 3, 3, 4])
+    steps = []
+    for i in range(k):
+        s = gen_case(r, ctx, r.choice(FAMILIES[fam]), hist=True)
+        kind = "new-data"
+        if steps:
+            x = r.below(8)
+            if x < 2:
+                t = retable(s, steps[-1])
+                if t != s: s, kind = t, "same-data-new-configuration"
+            elif x == 2:
+                s, kind = steps[-1], "identical-repetition"
+        if steps and kind == "new-data":
+            try:
+                a, b = parse_op(steps[-1]), parse_op(s)
+                kind = "new-data-" + ("same-shape" if (a[1], a[2]) == (b[1], b[2]) else
+                                      "wide-after-tall" if (b[2] > b[1] and a[2] <= a[1]) else
+                                      "tall-after-wide" if (b[2] <= b[1] and a[2] > a[1]) else
+                                      "larger" if b[1] * b[2] > a[1] * a[2] else "smaller")
+            except Exception:
+                pass
+        if steps: ctx.hist("history_transitions", f"{fam}:{kind}")
+        steps.append(s)
+    ctx.hist("history_length", k)
+    return SEP.join(steps)
+
+
 # --------------------------------------------------------------------------- running
 def strip_oracle(line):
     return line.split(" !oracle")[0]
 
 
 class Res:
+    """result of one line (an op or a history); `steps` holds one Res per step of a history"""
     def __init__(self, op):
         self.op, self.impl, self.model, self.oracle, self.crash, self.stderr = op, "", "", [], False, ""
+        self.steps = []
 
     @property
     def ok(self):
-        return not self.crash and not self.oracle and self.model.startswith("ok ")
+        if self.crash or self.oracle: return False
+        ms = self.model.split(" ;; ")
+        return len(ms) == len(split_steps(self.op)) and all(m.startswith("ok ") for m in ms)
+
+    def finish(self):
+        """split a history into per-step results"""
+        ops = split_steps(self.op)
+        impl, model = self.impl.split(" ;; "), self.model.split(" ;; ")
+        self.steps = []
+        if len(ops) > 1 and len(impl) == len(ops) and len(model) == len(ops):
+            for o, i, m in zip(ops, impl, model):
+                st = Res(o); st.impl, st.model, st.oracle = i, m, re.findall(r"!oracle (\S+)", i)
+                self.steps.append(st)
 
 
 def run_lines(ctx, exes, drv, lines, timeout=900):
@@ -220,7 +303,7 @@ def run_lines(ctx, exes, drv, lines, timeout=900):
     groups = {}
     for i, l in enumerate(lines):
         op = l.split()[0] if l.split() else ""
-        groups.setdefault("a" if op in HARNESS_A_OPS else "c" if op == "fisher" else "b", []).append(i)
+        groups.setdefault("a" if op in HARNESS_A_OPS else "c" if op == "fisher" else "b", []).append(i)   # histories stay within one family
     for g, idx in groups.items():
         exe = exes[g]
         text = "\n".join(lines[i] for i in idx) + "\n"
@@ -239,11 +322,12 @@ def run_lines(ctx, exes, drv, lines, timeout=900):
                 res[i].stderr = err[-3000:] if k == len(out) else "(not reached: an earlier op crashed the harness)"
         if rc != 0 and len(out) >= len(idx):
             res[idx[-1]].crash, res[idx[-1]].stderr = True, err[-3000:]
-    dl = "\n".join(f"{r.op} || {strip_oracle(r.impl)}" if r.impl else r.op for r in res) + "\n"
+    dl = "\n".join(f"{r.op} || {' ;; '.join(strip_oracle(x) for x in r.impl.split(' ;; '))}" if r.impl else r.op for r in res) + "\n"
     p = subprocess.run([drv], input=dl, stdout=subprocess.PIPE, stderr=subprocess.PIPE, text=True, errors="replace", timeout=timeout)
     mo = p.stdout.splitlines()
     for i, r in enumerate(res):
         r.model = mo[i] if i < len(mo) else "FAIL driver produced no line: " + p.stderr[-300:]
+        r.finish()
     return res
 
 
@@ -264,7 +348,8 @@ def parse_op(line):
     """-> (head tokens, n, d, extra, sizes, rows) of an op line"""
     t = line.split()
     op = t[0]
-    nhead = {"meanvar": 1, "unitint": 1, "unitvar": 2, "linreg": 4, "whiten": 3, "zca": 3, "pca": 4, "lda": 3, "wlda": 3, "fisher": 3}[op]
+    nhead = {"meanvar": 1, "unitint": 1, "unitvar": 2, "linreg": 4, "whiten": 3, "zca": 3, "pca": 4, "pcat": 4, "pcac": 4,
+             "lda": 3, "wlda": 3, "fisher": 3}[op]
     head = t[:nhead]
     extra = int(t[3]) if op == "linreg" else 1 if op in ("lda", "fisher") else 2 if op == "wlda" else 0
     n, d, nb = int(t[nhead]), int(t[nhead + 1]), int(t[nhead + 2])
@@ -280,10 +365,35 @@ def build_op(head, d, sizes, rows):
 
 
 def shrink(ctx, exes, drv, line, same):
-    """greedy data shrinking of one failing op line: fewer rows, one batch, fewer columns, smaller values"""
+    """shrink a failing line: drop steps of a history, then shrink the data of every remaining step"""
+    steps = split_steps(line)
+    if len(steps) <= 1:
+        return shrink_step(ctx, exes, drv, [], line, [], same)
     def fails(l):
         try:
             r = run_lines(ctx, exes, drv, [l], timeout=60)[0]
+        except Exception:
+            return False
+        return (not r.ok) and same(r)
+    changed = True
+    while changed and len(steps) > 1:
+        changed = False
+        for i in range(len(steps) - 1, -1, -1):
+            cand = steps[:i] + steps[i + 1:]
+            if fails(SEP.join(cand)):
+                steps, changed = cand, True
+                break
+    for i in range(len(steps)):
+        steps[i] = shrink_step(ctx, exes, drv, steps[:i], steps[i], steps[i + 1:], same, budget=80)
+    return SEP.join(steps)
+
+
+def shrink_step(ctx, exes, drv, before, line, after, same, budget=120):
+    """greedy data shrinking of one op (a step between the steps `before` and `after` of a history): fewer rows,
+    one batch, fewer columns, smaller values"""
+    def fails(l):
+        try:
+            r = run_lines(ctx, exes, drv, [SEP.join(before + [l] + after)], timeout=60)[0]
         except Exception:
             return False
         return (not r.ok) and same(r)
@@ -292,7 +402,6 @@ def shrink(ctx, exes, drv, line, same):
     except Exception:
         return line
     cur = line
-    budget = 120
     changed = True
     while changed and budget > 0:
         changed = False
@@ -307,6 +416,8 @@ def shrink(ctx, exes, drv, line, same):
             for j in range(d):
                 if d > 1:
                     cands.append(build_op(head, d - 1, sizes, [r[:j] + r[j + 1:] for r in rows]))
+        if head[0] in ("pca", "pcat", "pcac") and head[3] != "0":
+            cands = [retable(c, c) for c in cands]                  # keep the number of components admissible
         for i in range(n):
             for j in range(len(rows[i])):
                 if rows[i][j] not in (0, 1):
@@ -322,6 +433,19 @@ def shrink(ctx, exes, drv, line, same):
 
 
 def classify(r):
+    """-> (key, what, concrete failing input found)"""
+    if len(split_steps(r.op)) > 1 and not r.crash:
+        for i, st in enumerate(r.steps):
+            if st.ok: continue
+            key, what, found = classify(st)
+            reuse = sorted({t for t in st.oracle if t.startswith("reuse-")})
+            if reuse:
+                op = st.op.split()[0]
+                return (f"reuse:{op}:{'+'.join(reuse)}",
+                        f"step {i + 1} of the history `{r.op}` ({op} on objects that were used before) does not give what freshly "
+                        f"constructed objects give ({reuse}); other oracle tags {sorted(set(st.oracle) - set(reuse))}; model says: {st.model[:300]}", True)
+            return key, what + f" [step {i + 1} of the history `{r.op}`]", found
+        return "mismatch:history:protocol", f"history `{r.op}`: {r.model[:300]}", False
     op = r.op.split()[0]
     if op == "fisher" and r.crash and r.op.split()[2] == "0":
         return ("F-C15-8:fisherlda-default-dimension",
@@ -336,10 +460,10 @@ def classify(r):
     if "zca-nonfinite" in r.oracle:
         return ("F-C15-2:zca-singular-covariance",
                 f"NormalizeComponentsZCA returns a non-finite model for data with singular covariance: `{r.op}`", True)
-    if op == "pca" and ("pca-nonfinite-direction" in r.oracle or "pca-not-orthonormal" in r.oracle) and r.op.split()[2] != "1":
+    if op in ("pca", "pcat", "pcac") and ("pca-nonfinite-direction" in r.oracle or "pca-not-orthonormal" in r.oracle) and r.op.split()[2] != "1":
         return ("F-C15-3:pca-small-sample-null-direction",
                 f"PCA (small-sample branch) normalises a direction without variance (0/0): `{r.op}` -> {r.oracle}", True)
-    if op == "pca" and "pca-nonfinite-model" in r.oracle and r.op.split()[1] == "1":
+    if op in ("pca", "pcat", "pcac") and "pca-nonfinite-model" in r.oracle and r.op.split()[1] == "1":
         return ("F-C15-3b:pca-whitening-zero-variance",
                 f"PCA encoder/decoder with whitening divide by sqrt(0) when all points coincide: `{r.op}`", True)
     if op == "fisher" and ("fisher-mean" in r.oracle or "fisherlda-mean" in r.model):
@@ -363,7 +487,7 @@ def correspond(ctx, name, exes, drv, lines, max_report=8):
     res = run_until_clean(ctx, exes, drv, lines)
     ctx.count("traces_validated_against_impl", len(lines))
     ctx.count("ops_compared", len(lines))
-    for r in res:
+    for r in [st for x in res for st in (x.steps or [x])]:
         m = re.match(r"ok exact=(\d+) tol=(\d+) rel=(\d+) tags=(\S*)", r.model)
         if m:
             ctx.count("values_compared_exactly", int(m.group(1)))
@@ -419,6 +543,8 @@ def build(ctx):
 
 def nontrivial(line):
     try:
+        steps = split_steps(line)
+        if len(steps) > 1: return True                    # a history: re-used objects
         head, n, d, extra, sizes, rows = parse_op(line)
         const = any(all(r[j] == rows[0][j] for r in rows) for j in range(d))
         return len(sizes) > 1 or const or d > n
@@ -452,12 +578,18 @@ def run(ctx):
             allp = gen_all_partitions(r, ctx, op)
             ctx.count("all_partition_families", 1)
             lines += allp
+    nh = 120 if ctx.quick else 1200
+    for fam in sorted(FAMILIES):
+        hs = [gen_history(r, ctx, fam) for _ in range(nh * (3 if fam == "pca" else 1))]
+        ctx.count("histories", len(hs))
+        lines += hs
     for l in lines:
-        ctx.hist("op_mix", l.split()[0])
-        try:
-            ctx.hist("batches", len(parse_op(l)[4]))
-        except Exception:
-            pass
+        for st in split_steps(l):
+            ctx.hist("op_mix", st.split()[0])
+            try:
+                ctx.hist("batches", len(parse_op(st)[4]))
+            except Exception:
+                pass
     ctx.cov["evaluations"] = len(lines)
     ctx.cov["distinct_nontrivial"] = len({l for l in lines if nontrivial(l)})
     ctx.sample({"op": lines[len(lines) // 2]})
